@@ -116,6 +116,9 @@ func cellSpec(c cell, flags aspec.Flags, base aspec.Base) *aspec.ASpec {
 	case "alias":
 		a.Schemas = append(a.Schemas, aspec.NamedSchema{Name: "CellTarget", Schema: s}, aspec.NamedSchema{Name: "CellSchema", Schema: aspec.Schema{K: "ref", To: "CellTarget"}})
 		s = aspec.Schema{K: "ref", To: "CellSchema"}
+	case "aliasBack":
+		a.Schemas = append(a.Schemas, aspec.NamedSchema{Name: "CellAaTarget", Schema: s}, aspec.NamedSchema{Name: "CellSchema", Schema: aspec.Schema{K: "ref", To: "CellAaTarget"}})
+		s = aspec.Schema{K: "ref", To: "CellSchema"}
 	}
 	lit := func(x string) []aspec.Seg { return []aspec.Seg{{K: "lit", S: x}} }
 	op := simpleOp("GET", lit("cell"))
